@@ -233,6 +233,13 @@ CaseResult run_case(Tape &t, long)
     for (size_t i = 0; i < c.src.size(); i++) srcs[i] = { c.src[i].null ? nullptr : kids[i].p, c.src[i].interests, 0x7fff };
 
     bool hang_before = w.hang;
+    {
+      // an unbounded wait may be implemented as endless bounded polls: it is
+      // recognised once nothing can happen any more for longer than every
+      // finite bound of this call
+      int64_t B = std::min(T, std::min(D, E));
+      w.call_begins(B == INF ? 100000 : (B > entry ? B - entry : 0) + 100000);
+    }
     int r = reproc_poll(srcs.data(), srcs.size(), pc.timeout);
     int64_t ret_at = w.now;
     bool hung = w.hang && !hang_before;
@@ -349,6 +356,10 @@ CaseResult run_case(Tape &t, long)
       if (!(bound == INF && death == INF)) {
         saw_wait = true;
         bool hang_before = w.hang;
+        {
+          int64_t B = std::min(bound, death);
+          w.call_begins(B == INF ? 100000 : (B > entry ? B - entry : 0) + 100000);
+        }
         int r = reproc_wait(kids[i].p, to);
         int64_t ret_at = w.now;
         auto fail = [&](const std::string &sig, const std::string &m) { res.fail(sig, "wait(" + std::to_string(to) + ") on source " + std::to_string(i) + ": " + m); };
